@@ -90,7 +90,7 @@ func loadKnown() ([]knownFinding, error) {
 		rest := strings.TrimSpace(strings.TrimPrefix(ln, "finding:"))
 		// finding: property=C10 rule=<rule> construct=<...> :: what
 		what := ""
-		if i := strings.Index(rest, " :: "); i >= 0 {
+		if i := strings.Index(rest, " || "); i >= 0 {
 			what = rest[i+4:]
 			rest = rest[:i]
 		}
